@@ -115,18 +115,30 @@ fn drift_windowed<T: Scalar>(spec: &Spec, alpha: &[f64], period: usize, len: usi
             continue;
         }
         let mag = cyc.iter().fold(0.0f64, |m, x| m.max(x.abs()));
+        // ratio-type outputs: the natural scale is the largest magnitude the exact output takes on this stream
+        let ratio_scale = exact[k..].iter().flatten().fold(1.0f64, |m, x| m.max(x.abs()));
+        // CenterOfGravity divides by the window sum: where that sum is exactly 0 the exact function is
+        // discontinuous (defined as 0 there, unbounded next to it) and no floating-point evaluation can
+        // track it; those singular steps are not judged (decided on the exact tenths of the letters)
+        let tenths: Vec<i64> = cyc.iter().map(|x| (x * 10.0).round() as i64).collect();
+        let singular = |i: usize| -> bool {
+            spec.kind == Kind::CenterOfGravity && {
+                let n = spec.n.min(i + 1);
+                (0..n).map(|j| tenths[(i - j) % p]).sum::<i64>() == 0
+            }
+        };
         let r = guard(|| {
             let mut v = build::<T>(spec);
             for i in 0..len {
                 v.update(T::of(cyc[i % p]));
-                if i < k {
+                if i < k || singular(i) {
                     continue;
                 }
                 let want = exact[k + (i - k) % p];
                 let got = v.last().map(|x| x.f());
                 let ok = match (got, want) {
                     (None, None) => true,
-                    (Some(g), Some(w)) => g.is_finite() && (g - w).abs() <= tol(spec, rel, mag, w),
+                    (Some(g), Some(w)) => g.is_finite() && (g - w).abs() <= tol(spec, rel, mag, w.abs().max(ratio_scale)),
                     _ => false,
                 };
                 if !ok {
